@@ -370,6 +370,8 @@ func checkC09(c *Ctx) {
 		c.Fatalf("the C09 harness must be built with -race (bin/check does this)")
 	}
 	c.MustTLC(TLCOpts{Module: "SyncProtocol", Cfg: "SyncProtocol.check"})
+	c.MustTLC(TLCOpts{Module: "Observer", Cfg: "Observer.check"})
+	c.MustTLC(TLCOpts{Module: "Observer", Cfg: "Observer.check", Consts: map[string]string{"Take": `"alias"`}, ExpectViolation: true})
 	c.MustTLC(TLCOpts{Module: "SyncProtocol", Cfg: "SyncProtocol.check", Consts: map[string]string{"Procs": "{1, 2, 3}"}})
 	for _, m := range spMutants {
 		c.MustTLC(TLCOpts{Module: "SyncProtocol", Cfg: "SyncProtocol.check", Consts: m, ExpectViolation: true})
